@@ -177,3 +177,353 @@ def sym_paths(fn_node, rewrite=None, maxpaths=256, loops='error'):
 
 def text(node):
     return src(node) if node is not None else 'None'
+
+
+# =====================================================================================================
+# v2: symbolic evaluation with loops (body evaluated once, loop variable = ELEM(iterable)), list surgery
+# (pop / star-unpack / [-1] / [:-1] as LAST / INIT / FIRST / REST), await/yield transparency with a suspension
+# counter, and splicing of helper methods / private module functions.  Used by the "idiom + lemma" rules so that
+# temporaries, helper extraction, early returns and equivalent spellings do not change the normal form.
+# =====================================================================================================
+def _sym(name, *args):
+    return ast.Call(func=ast.Name(id=name, ctx=ast.Load()), args=list(args), keywords=[])
+
+
+class Rec:
+    """what one symbolic path did"""
+    def __init__(self):
+        self.env = {}
+        self.conds = []
+        self.stores = []       # (field, value expr, n_suspensions_before, loop_ctx)
+        self.emits = []        # (data expr, metadata expr|None, n_suspensions_before, loop_ctx, awaited_later flag holder)
+        self.calls = []        # (call expr (substituted), n_suspensions_before, loop_ctx)
+        self.susp = 0
+        self.ret = None
+        self.done = False
+        self.raised = False
+        self.awaited = set()   # indices of emissions whose result was awaited / yielded
+        self.jump = None       # 'break' / 'continue' until the enclosing loop consumes it
+
+    def copy(self):
+        r = Rec()
+        r.awaited = set(self.awaited)
+        r.jump = self.jump
+        r.env = dict(self.env)
+        r.conds = list(self.conds)
+        r.stores = list(self.stores)
+        r.emits = list(self.emits)
+        r.calls = list(self.calls)
+        r.susp, r.ret, r.done, r.raised = self.susp, self.ret, self.done, self.raised
+        return r
+
+    def ev(self, node):
+        if node is None:
+            return None
+        return _Subst(self.env).visit(copy.deepcopy(node))
+
+
+class SymEval:
+    def __init__(self, model, cls=None, depth=3, maxpaths=400):
+        self.model, self.cls, self.depth, self.maxpaths = model, cls, depth, maxpaths
+
+    # -------------------------------------------------------------- expression rewriting
+    def simplify(self, e):
+        """list surgery on already substituted expressions"""
+        class T(ast.NodeTransformer):
+            def visit_Subscript(self_, n):
+                self_.generic_visit(n)
+                sl = n.slice
+                if isinstance(sl, ast.UnaryOp) and isinstance(sl.op, ast.USub) and isinstance(sl.operand, ast.Constant) and sl.operand.value == 1:
+                    return _sym('LAST', n.value)
+                if isinstance(sl, ast.Constant) and sl.value == -1:
+                    return _sym('LAST', n.value)
+                if isinstance(sl, ast.Constant) and sl.value == 0:
+                    return _sym('FIRST', n.value)
+                if isinstance(sl, ast.Slice) and sl.lower is None and sl.step is None and sl.upper is not None and src(sl.upper) == '-1':
+                    return _sym('INIT', n.value)
+                if isinstance(sl, ast.Slice) and sl.upper is None and sl.step is None and sl.lower is not None and src(sl.lower) == '1':
+                    return _sym('REST', n.value)
+                return n
+
+            def visit_SetComp(self_, n):
+                self_.generic_visit(n)
+                if len(n.generators) == 1:
+                    g = n.generators[0]
+                    if isinstance(n.elt, ast.Name) and isinstance(g.target, ast.Name) and n.elt.id == g.target.id and len(g.ifs) == 1:
+                        t = g.ifs[0]
+                        if isinstance(t, ast.Compare) and len(t.ops) == 1 and isinstance(t.ops[0], ast.NotIn) \
+                                and isinstance(t.left, ast.Name) and t.left.id == g.target.id:
+                            return ast.BinOp(left=_sym('set', g.iter), op=ast.Sub(), right=t.comparators[0])
+                return n
+
+            def visit_Call(self_, n):
+                self_.generic_visit(n)
+                if isinstance(n.func, ast.Attribute) and n.func.attr == 'difference' and len(n.args) == 1:
+                    return ast.BinOp(left=n.func.value, op=ast.Sub(), right=n.args[0])
+                return n
+        return ast.fix_missing_locations(T().visit(e)) if e is not None else None
+
+    def val(self, r, node):
+        return self.simplify(r.ev(node))
+
+    # -------------------------------------------------------------- statements
+    def run(self, fn, bind=None):
+        r = Rec()
+        if bind:
+            r.env.update(bind)
+        out = []
+        for q in self.block(fn.node.body, r, fn, (), 0):
+            out.append(q)
+            if len(out) > self.maxpaths:
+                raise AnalysisError('symbolic evaluation: too many paths in %s' % fn.qual)
+        return out
+
+    def block(self, stmts, r, fn, loop, depth):
+        if not stmts:
+            yield r
+            return
+        for q in self.stmt(stmts[0], r, fn, loop, depth):
+            if q.done or q.raised or q.jump:
+                yield q
+            else:
+                yield from self.block(stmts[1:], q, fn, loop, depth)
+
+    def assign(self, r, target, value, loop):
+        if isinstance(target, ast.Name):
+            r.env[target.id] = value
+        elif isinstance(target, (ast.Tuple, ast.List)):
+            stars = [i for i, t in enumerate(target.elts) if isinstance(t, ast.Starred)]
+            if isinstance(value, (ast.Tuple, ast.List)) and len(value.elts) == len(target.elts) and not stars:
+                for t, v in zip(target.elts, value.elts):
+                    self.assign(r, t, v, loop)
+            elif len(stars) == 1 and len(target.elts) == 2:
+                if stars[0] == 0:       # *init, last = X
+                    self.assign(r, target.elts[0].value, _sym('INIT', value), loop)
+                    self.assign(r, target.elts[1], _sym('LAST', value), loop)
+                else:                   # first, *rest = X
+                    self.assign(r, target.elts[0], _sym('FIRST', value), loop)
+                    self.assign(r, target.elts[1].value, _sym('REST', value), loop)
+            else:
+                for i, t in enumerate(target.elts):
+                    self.assign(r, t.value if isinstance(t, ast.Starred) else t, _index(value, i), loop)
+        elif isinstance(target, ast.Attribute) and isinstance(target.value, ast.Name) and target.value.id == 'self':
+            r.env['self.' + target.attr] = value
+            r.stores.append((target.attr, value, r.susp, loop))
+        else:
+            r.calls.append((ast.Assign(targets=[r.ev(target)], value=value, lineno=0), r.susp, loop))
+
+    def _helper(self, fn, call):
+        """resolve a call to a spliceable helper: method of the class (incl. static) or private module-level function"""
+        f = call.func
+        if isinstance(f, ast.Attribute) and isinstance(f.value, ast.Name) and f.value.id == 'self' and self.cls is not None:
+            callee = self.cls.find(f.attr)
+            if callee is not None and f.attr not in ('_emit', 'emit', '_retain_refs', '_release_refs'):
+                static = any(src(d) == 'staticmethod' for d in callee.node.decorator_list)
+                if not any(src(d) in ('property', 'classmethod') for d in callee.node.decorator_list):
+                    return callee, (0 if static else 1)
+        if isinstance(f, ast.Name) and f.id.startswith('_') and not f.id.startswith('__'):
+            from .model import Func
+            t = self.model.resolve_name(fn.module, f)
+            if isinstance(t, Func) and t.owner is None and t.parent is None:
+                return t, 0
+        return None
+
+    def eval_value(self, r, node, fn, loop, depth, awaited=False):
+        """evaluate an expression that may await/yield, pop from a local list, or call a helper.
+        yields (Rec, value expr)"""
+        if node is None:
+            yield r, None
+            return
+        if isinstance(node, (ast.Await, ast.Yield, ast.YieldFrom)):
+            for q, v in self.eval_value(r, node.value, fn, loop, depth, awaited=True):
+                q = q.copy()
+                q.susp += 1
+                if v is not None:
+                    for x in ast.walk(v):
+                        if isinstance(x, ast.Call) and isinstance(x.func, ast.Name) and x.func.id == 'EMITRESULT':
+                            q.awaited.add(x.args[0].value)
+                yield q, v
+            return
+        if isinstance(node, ast.Call):
+            h = self._helper(fn, node) if depth < self.depth else None
+            if h is not None and h[0].is_coro and not awaited:
+                h = None        # a coroutine function called but not awaited: its body does not run here
+            if h is not None:
+                callee, off = h
+                params = callee.params()[off:]
+                bind = {}
+                for p_, a in zip(params, node.args):
+                    bind[p_] = self.val(r, a)
+                for k in node.keywords:
+                    if k.arg:
+                        bind[k.arg] = self.val(r, k.value)
+                # defaults
+                a_ = callee.node.args
+                pos = a_.posonlyargs + a_.args
+                for prm, d in zip(pos[len(pos) - len(a_.defaults):], a_.defaults):
+                    bind.setdefault(prm.arg, d)
+                base = r.copy()
+                saved_env = dict(base.env)
+                base.env = {k: v for k, v in base.env.items() if k.startswith('self.')}
+                base.env.update(bind)
+                base.ret, base.done = None, False
+                for q in self.block(callee.node.body, base, callee, loop, depth + 1):
+                    if q.raised:
+                        q2 = q.copy()
+                        yield q2, None
+                        continue
+                    q2 = q.copy()
+                    rv = q2.ret
+                    fields = {k: v for k, v in q2.env.items() if k.startswith('self.')}
+                    q2.env = dict(saved_env)
+                    q2.env.update(fields)
+                    q2.ret, q2.done = None, False
+                    yield q2, (rv if rv is not None else ast.Constant(value=None))
+                return
+            # list surgery on a local:  L.pop() / L.pop(-1) / L.pop(0)
+            f = node.func
+            if isinstance(f, ast.Attribute) and f.attr == 'pop' and isinstance(f.value, ast.Name) and f.value.id in r.env \
+                    and not node.keywords and len(node.args) <= 1:
+                a = src(node.args[0]) if node.args else '-1'
+                if a in ('-1', '0'):
+                    q = r.copy()
+                    cur = q.env[f.value.id]
+                    q.env[f.value.id] = _sym('INIT' if a == '-1' else 'REST', cur)
+                    yield q, _sym('LAST' if a == '-1' else 'FIRST', cur)
+                    return
+            # emission
+            if isinstance(f, ast.Attribute) and f.attr in ('_emit', 'emit') and isinstance(f.value, (ast.Name, ast.Attribute)):
+                q = r.copy()
+                data = self.val(q, node.args[0]) if node.args else None
+                mdn = next((k.value for k in node.keywords if k.arg == 'metadata'), node.args[1] if len(node.args) > 1 else None)
+                q.emits.append((data, self.val(q, mdn) if mdn is not None else None, q.susp, loop))
+                yield q, _sym('EMITRESULT', ast.Constant(value=len(q.emits) - 1))
+                return
+            # nested awaits / helper calls in arguments: evaluate arguments left to right
+            states = [(r, [])]
+            for a in node.args:
+                nxt = []
+                for q, acc in states:
+                    inner = a.value if isinstance(a, ast.Starred) else a
+                    if any(isinstance(x, (ast.Await, ast.Yield, ast.Call)) for x in ast.walk(inner)):
+                        for q2, v in self.eval_value(q, inner, fn, loop, depth):
+                            nxt.append((q2, acc + [ast.Starred(value=v, ctx=ast.Load()) if isinstance(a, ast.Starred) else v]))
+                    else:
+                        v = self.val(q, inner)
+                        nxt.append((q, acc + [ast.Starred(value=v, ctx=ast.Load()) if isinstance(a, ast.Starred) else v]))
+                states = nxt
+            for q, acc in states:
+                fexpr = self.val(q, node.func)
+                call = ast.Call(func=fexpr, args=acc, keywords=[ast.keyword(arg=k.arg, value=self.val(q, k.value)) for k in node.keywords])
+                q = q.copy()
+                q.calls.append((call, q.susp, loop))
+                yield q, self.simplify(call)
+            return
+        yield r, self.val(r, node)
+
+    def stmt(self, s, r, fn, loop, depth):
+        if isinstance(s, ast.Expr):
+            if isinstance(s.value, ast.Constant):
+                yield r
+                return
+            for q, v in self.eval_value(r, s.value, fn, loop, depth):
+                yield q
+        elif isinstance(s, (ast.Assign, ast.AnnAssign)):
+            value = s.value
+            targets = s.targets if isinstance(s, ast.Assign) else [s.target]
+            if value is None:
+                yield r
+                return
+            for q, v in self.eval_value(r, value, fn, loop, depth):
+                q = q.copy()
+                for t in targets:
+                    self.assign(q, t, v, loop)
+                yield q
+        elif isinstance(s, ast.AugAssign):
+            for q, v in self.eval_value(r, s.value, fn, loop, depth):
+                q = q.copy()
+                cur = self.val(q, ast.Name(id=s.target.id, ctx=ast.Load()) if isinstance(s.target, ast.Name) else s.target)
+                if isinstance(s.target, ast.Attribute) and isinstance(s.target.value, ast.Name) and s.target.value.id == 'self':
+                    cur = q.env.get('self.' + s.target.attr, s.target)
+                self.assign(q, s.target, ast.BinOp(left=cur, op=s.op, right=v), loop)
+                yield q
+        elif isinstance(s, ast.Return):
+            for q, v in self.eval_value(r, s.value, fn, loop, depth):
+                q = q.copy()
+                q.ret = v if v is not None else ast.Constant(value=None)
+                q.done = True
+                yield q
+        elif isinstance(s, ast.Raise):
+            q = r.copy()
+            if isinstance(s.exc, ast.Call) and src(s.exc.func) in ('gen.Return', 'Return'):
+                q.ret = self.val(q, s.exc.args[0]) if s.exc.args else ast.Constant(value=None)
+                q.done = True
+            else:
+                q.raised = True
+            yield q
+        elif isinstance(s, ast.If):
+            for q0, t in self.eval_value(r, s.test, fn, loop, depth):
+                for outcome, arm in ((True, s.body), (False, s.orelse)):
+                    q = q0.copy()
+                    q.conds.append((src(t), outcome))
+                    yield from self.block(arm, q, fn, loop, depth)
+        elif isinstance(s, ast.Try):
+            for q in self.block(s.body, r, fn, loop, depth):
+                if q.done or q.raised:
+                    yield q
+                else:
+                    for q2 in self.block(s.orelse, q, fn, loop, depth):
+                        if q2.done or q2.raised:
+                            yield q2
+                        else:
+                            yield from self.block(s.finalbody, q2, fn, loop, depth)
+        elif isinstance(s, (ast.For, ast.AsyncFor)):
+            for q0, it in self.eval_value(r, s.iter, fn, loop, depth):
+                if isinstance(it, (ast.List, ast.Tuple)) and not it.elts:
+                    yield q0            # loop over an empty literal: no iteration
+                    continue
+                q = q0.copy()
+                ctx2 = loop + ((src(it), s.lineno),)
+                self.assign(q, s.target, _sym('ELEM', it), ctx2)
+                any_path = False
+                for q2 in self.block(s.body, q, fn, ctx2, depth):
+                    any_path = True
+                    if q2.raised:
+                        yield q2
+                        continue
+                    q3 = q2.copy()
+                    q3.done = q2.done
+                    # a `return` inside the loop ends the function on that path; `break`/`continue` end this (single,
+                    # representative) iteration and are remembered in conds as '<break>' / '<continue>'
+                    q3.jump = None
+                    yield q3
+                if not any_path:
+                    yield q0
+        elif isinstance(s, ast.While):
+            # evaluate the body once under the test
+            for q0, t in self.eval_value(r, s.test, fn, loop, depth):
+                ctx2 = loop + (('while ' + src(t), s.lineno),)
+                q = q0.copy()
+                for q2 in self.block(s.body, q, fn, ctx2, depth):
+                    if q2.jump:
+                        q2 = q2.copy()
+                        q2.jump = None
+                    yield q2
+                yield q0
+        elif isinstance(s, (ast.Break, ast.Continue)):
+            q = r.copy()
+            q.conds.append(('<%s>' % type(s).__name__.lower(), True))
+            q.jump = type(s).__name__.lower()
+            yield q
+        elif isinstance(s, (ast.With, ast.AsyncWith)):
+            yield from self.block(s.body, r, fn, loop, depth)
+        elif isinstance(s, (ast.Pass, ast.Import, ast.ImportFrom, ast.Assert, ast.FunctionDef, ast.AsyncFunctionDef,
+                            ast.Global, ast.Nonlocal, ast.Delete, ast.ClassDef)):
+            yield r
+        else:
+            raise AnalysisError('symbolic evaluation: unsupported statement %s at line %d' % (type(s).__name__, s.lineno))
+
+
+def nf(e):
+    """text of a symbolic value without spaces"""
+    return src(e).replace(' ', '') if e is not None else 'None'
